@@ -35,7 +35,7 @@ def calc_slope_temporalps(slope_data):
     n_frames = slope_data.shape[-2]
 
     # Only take half result, as FFT mirrors
-    tps = abs(numpy.fft.fft(slope_data, axis=-2)[..., :int(n_frames/2), :])**2
+    tps = abs(numpy.fft.fft(slope_data, axis=-2)[..., :(n_frames+1)//2, :])**2
 
     # Find mean across all sub-aps
     mean_tps = tps.mean(-1)
@@ -54,7 +54,7 @@ def get_tps_time_axis(frame_rate, n_frames):
         ndarray: Time values for temporal power spectra plots
     """
 
-    t_vals = numpy.fft.fftfreq(n_frames, 1./frame_rate)[:int(n_frames/2)]
+    t_vals = numpy.fft.fftfreq(n_frames, 1./frame_rate)[:(n_frames+1)//2]
 
     return t_vals
 
